@@ -14,7 +14,7 @@ from __future__ import annotations
 import io
 import itertools
 import warnings
-from datetime import date, datetime
+from datetime import date, datetime, timedelta, time as dtime
 from decimal import Decimal
 from fractions import Fraction
 
@@ -23,7 +23,7 @@ from mc.core import Agg, V
 from mc.models import expected_dtype, join_kinds
 
 RULE = ("A: all (DataType, symbol[, symbol]) promotion combinations + BFS product automaton over words; "
-        "E: every word over 17 type symbols (incl. Fraction and Decimal - numbers that are not on the ladder - and a subclass of a user class) up to the length bound, 2 representatives; "
+        "E: every word over 19 type symbols (incl. Fraction and Decimal - numbers that are not on the ladder -, timedelta and time - temporal values that are not on it - and a subclass of a user class) up to the length bound, 2 representatives; "
         "non-trivial = word mixes >=2 distinct symbols (order/None-position can matter)")
 ASSUMPTIONS = [
     "type alphabet: None,bool,int,float,complex,str,bytes,date,datetime,list,dict,tuple and two unrelated user classes; "
@@ -54,7 +54,7 @@ class A2(A):
 
 
 SYMS = ["None", "bool", "int", "float", "complex", "str", "bytes", "date", "datetime",
-        "list", "dict", "tuple", "A", "B", "Fraction", "Decimal", "A2"]
+        "list", "dict", "tuple", "A", "B", "Fraction", "Decimal", "A2", "timedelta", "time"]
 REPS = {
     "None": (None, None),
     "bool": (True, False),
@@ -74,10 +74,13 @@ REPS = {
     "Fraction": (Fraction(1, 2), Fraction(3, 1)),
     "Decimal": (Decimal("1.5"), Decimal(2)),
     "A2": (A2(1), A2(2)),
+    # temporal values that are NOT on the date<datetime ladder
+    "timedelta": (timedelta(days=1), timedelta(0)),
+    "time": (dtime(3, 4), dtime(0, 0)),
 }
 KIND = {"bool": bool, "int": int, "float": float, "complex": complex, "str": str, "bytes": bytes,
         "date": date, "datetime": datetime, "list": list, "dict": dict, "tuple": tuple, "A": A, "B": B,
-        "Fraction": Fraction, "Decimal": Decimal, "A2": A2}
+        "Fraction": Fraction, "Decimal": Decimal, "A2": A2, "timedelta": timedelta, "time": dtime}
 
 
 def kname(k):
@@ -747,6 +750,27 @@ def unit_typed(unit):
                     agg.nontrivial += 1
                 for c in res._underlying:
                     check_col(agg, "read_csv", c, case)
+        # jagged files: records shorter than the header (the missing cells are None like empty ones), a blank line between records,
+        # header-less input with ragged records - every column is typed by the ordinary rule applied to the cells it ends up with
+        for n in (1, 2, 3):
+            for col in itertools.product(["1", "2.5", "x"], repeat=n):
+                for short in range(n):
+                    for layout in ("short-record", "short-record-no-header", "blank-line"):
+                        recs = [f"{c},7,8" for c in col]
+                        if layout == "blank-line":
+                            recs.insert(short, "")
+                        else:
+                            recs[short] = f"{col[short]},7"
+                        text = ("" if layout == "short-record-no-header" else "h,g,f\n") + "".join(r + "\n" for r in recs)
+                        case = {"part": "csv-jagged", "layout": layout, "text": text}
+                        try:
+                            res = read_csv(io.StringIO(text), has_header=(layout != "short-record-no-header"))
+                        except Exception as e:
+                            agg.skipped["jagged-csv-refused-" + type(e).__name__] += 1
+                            continue
+                        agg.evals += 1; agg.transitions += 1; agg.states += 1; agg.nontrivial += 1
+                        for c in res._underlying:
+                            check_col(agg, "read_csv.jagged", c, case)
         # "never on element order": every ordering of the same cells gives the same column dtype
         for n in (2, 3):
             for combo in itertools.combinations_with_replacement(cells + ["7", "n/a", "-"], n):
